@@ -13,6 +13,8 @@ import (
 	"io"
 	"os"
 	"path/filepath"
+	"sync"
+	"sync/atomic"
 	"testing"
 	"time"
 )
@@ -47,12 +49,16 @@ type c01Cfg struct {
 	proxyK       int
 	openFileImpl bool
 	noSizes      bool // the store reports size 0 for every file
+	eagerEOF     bool // the store's readers report io.EOF together with the last bytes (io.ReaderAt allows both forms)
 }
 
 func (c c01Cfg) String() string {
 	s := fmt.Sprintf("%s/alloc=%v/P=%d/C=%d/cr=%v/cw=%v/fstat=%v/proxyK=%d", []string{"Server", "RS-store", "RS-inmem"}[c.backend], c.alloc, c.P, c.C, c.cr, c.cw, c.fst, c.proxyK)
 	if c.noSizes {
 		s += "/no-sizes"
+	}
+	if c.eagerEOF {
+		s += "/eager-EOF"
 	}
 	return s
 }
@@ -123,6 +129,7 @@ func c01Connect(u *vfUnit, cfg c01Cfg) (*c01Env, error) {
 		e.store = vfNewStore()
 		// every third store-backed unit: a backend that does not report sizes (Stat/Fstat say 0): what is read must still be the content
 		e.store.ReportSizeZero = cfg.noSizes
+		e.store.EagerEOF = cfg.eagerEOF
 		sc.H = e.store.Handlers(vfHandlerOpt{OpenFile: cfg.openFileImpl, CmdAll: true, ListAll: true})
 	case 2:
 		sc.Kind = vfRS
@@ -266,6 +273,7 @@ func c01Run(u *vfUnit) {
 		fst:          (i/11)%2 == 0,
 		openFileImpl: (i/13)%2 == 0,
 		noSizes:      (i/3)%3 == 1 && (i/9)%3 == 1,
+		eagerEOF:     (i/3)%3 == 1 && i%2 == 0,
 	}
 	if i%10 < 7 {
 		cfg.proxyK = 2 + r.Intn(15)
@@ -545,6 +553,7 @@ func c01Run(u *vfUnit) {
 	}
 	c01AfterShrink(u, e)
 	c01StreamLike(u, e)
+	c01SharedWrite(u, e)
 	if msg := e.sess.Close(); msg != "" {
 		u.Violation("session-close", cfg.String()+": "+msg, nil)
 	}
@@ -594,6 +603,92 @@ func c01AfterShrink(u *vfUnit, e *c01Env) {
 		if e.cfg.backend == 0 {
 			os.Remove(p)
 		}
+	}
+}
+
+// c01SharedWrite: several goroutines append records through one File with Write. Every call returns its full count,
+// so every record must be in the served file exactly once and whole, at the intended offset of some order of the
+// calls: the file is a permutation of the records, nothing else.
+func c01SharedWrite(u *vfUnit, e *c01Env) {
+	c := e.sess.C
+	p := e.path(9100)
+	label := fmt.Sprintf("%s | shared-Write", e.cfg)
+	f, err := c.Create(p)
+	if err != nil {
+		u.Violation("open-failed", label+": "+err.Error(), nil)
+		return
+	}
+	const nG, perG = 4, 5
+	L := 64
+	if u.Index%2 == 1 {
+		L = e.cfg.P + 5 // a record that takes two packets
+		if L > 70000 {
+			L = 70000
+		}
+	}
+	rec := func(g, k int) []byte {
+		b := make([]byte, L)
+		for i := range b {
+			b[i] = byte(1 + g*perG + k)
+		}
+		return b
+	}
+	var wg sync.WaitGroup
+	var bad atomic.Value
+	gate := make(chan struct{})
+	for g := 0; g < nG; g++ {
+		wg.Add(1)
+		go func(g int) {
+			defer wg.Done()
+			<-gate
+			for k := 0; k < perG; k++ {
+				if n, err := f.Write(rec(g, k)); n != L || err != nil {
+					bad.Store(fmt.Sprintf("Write of record %d/%d returned (%d, %v)", g, k, n, err))
+				}
+			}
+		}(g)
+	}
+	close(gate)
+	if w, dump := vfAwait(vfGo(wg.Wait), 120*time.Second); w != vfDone {
+		if w == vfStuck {
+			u.Violation("shared-write-hangs", label+": the calls do not return\n"+vfTrim(dump, 2000), nil)
+		} else {
+			u.Inconclusive("%s: wall-clock cap", label)
+		}
+		return
+	}
+	cur, _ := f.Seek(0, io.SeekCurrent)
+	f.Close()
+	got := e.get(p)
+	u.Count("transfers", 1)
+	u.Count("shared_write_records", nG*perG)
+	u.Eval(fmt.Sprintf("shared-write/%d/%s", e.cfg.backend, c01Class(L, e.cfg.P, e.cfg.C)))
+	problem := ""
+	if v := bad.Load(); v != nil {
+		problem = v.(string)
+	} else if len(got) != nG*perG*L || cur != int64(nG*perG*L) {
+		problem = fmt.Sprintf("%d records of %d bytes were written with full counts; the served file has %d bytes and the offset is %d", nG*perG, L, len(got), cur)
+	} else {
+		seen := map[byte]int{}
+		for i := 0; i < len(got); i += L {
+			b := got[i : i+L]
+			if bytes.Count(b, b[:1]) != L {
+				problem = fmt.Sprintf("the %d bytes at offset %d are not one whole record", L, i)
+				break
+			}
+			seen[b[0]]++
+		}
+		for t := 1; t <= nG*perG && problem == ""; t++ {
+			if seen[byte(t)] != 1 {
+				problem = fmt.Sprintf("record %d is in the served file %d times", t, seen[byte(t)])
+			}
+		}
+	}
+	if problem != "" {
+		u.Violation("served-content:shared-write", label+": "+problem, nil)
+	}
+	if e.cfg.backend == 0 {
+		os.Remove(p)
 	}
 }
 
